@@ -146,6 +146,21 @@ PROPS["C04"] = {
     "technique": "Lean 4 proof of wrapper-state preservation; generated codecs checked by type-directed round trips and reference validation on regenerated code",
 }
 
+PROPS["C15"] = {
+    "lean_modules": ["Ogen.Props.C15"],
+    "suites": ["c15"],
+    "timeout": 3600,
+    "trusted_base": [
+        KERNEL, HARNESS, GENCHECK,
+        "statements in lean/Ogen/Props/C15.lean; model Stages.handle hand-written from gen/_template/handlers.tmpl and ogenerrors/handler.go; tie = requests that fail at a chosen stage (and every handler outcome) sent to a regenerated server, (status, handler-invoked) compared with the model line by line",
+        "NOT proved: that the decoders themselves never panic on arbitrary bytes (jx, net/http, generated decoders) — checked on the implementation with byte-level mutations of valid requests, hand-built *http.Request values that bypass URL validation and random bodies; the over-acceptance oracle of that stream is a hand-written reference for one operation",
+    ],
+    "assumptions": ["the query parameter stage sees net/url's parsed multimap (malformed pairs already dropped: known finding K9)"],
+    "level_text": "partial: one_response, no_overaccept, stage_status and handler_error_status are Lean theorems about the stage machine; its tie is a differential run against a regenerated server; byte-level robustness (no panic, one WriteHeader, handler only for reference-valid requests) is implementation-only",
+    "level_note": "trusted: Lean kernel, statements, stage model + tie, gencheck pipeline, net/http. Known finding K9.",
+    "technique": "Lean 4 proof over a stage-machine model of the generated request handler; model=code by differential runs with stage-targeted malformed requests against a regenerated server; mutation stream on the implementation",
+}
+
 # properties not claimed, with the reason (kept current; see DESIGN.md §7)
 NOT_CLAIMED = {
     "C10": "not applicable: determinism/race-freedom of generation lives in Go map iteration order, goroutine scheduling and the memory model; no executable model separate from the runtime can express it (DESIGN.md §7)",
